@@ -294,6 +294,7 @@ def run_rtx(cx, laws=("roundtrip", "independent")):
     lines.append("%d rt rt json %s" % (len(lines), hexs(json.dumps(to_json(w)).encode())))
     meta[len(lines) - 1] = ("f49", "json", None, to_xml(w), json.dumps(to_json(w)).encode())
     ri = cx.run_impl(HARNESS, lines, component="rtx", timeout=1200)
+    xmlitems = []
     if ri.get("0", ["err"])[0] != "ok":
         cx.fail("rtx", "fixed schema rejected", {"reply": ri.get("0")})
         return
@@ -319,6 +320,8 @@ def run_rtx(cx, laws=("roundtrip", "independent")):
             cx.fail("rtx", "valid %s instance rejected by the %s parser" % (kind, fmt), dict(base, doc=doc.decode("utf-8", "replace")[:3000]))
             continue
         matrix, px, pj = r[1], unhex(r[2]), unhex(r[3])
+        if kind == "rt" and fmt == "xml" and len(r) > 4:
+            xmlitems.append((unhex(r[4]), px))
         if "roundtrip" in laws:
             bad = [c for c in matrix if c not in "=-"]
             if bad:
@@ -343,4 +346,6 @@ def run_rtx(cx, laws=("roundtrip", "independent")):
             elif a != b:
                 cx.fail("rtx", "XML output read by an independent parser differs from the independent XML encoding of the same instance (elements, namespaces, attributes or character data)",
                         dict(base, xml_out=px.decode("utf-8", "replace")[:3000], first_diff=rtcomp.first_diff(a, b)))
+    rtcomp.model_xml_print(cx, xmlitems, "rtx")
+    rtcomp.spec_xmldoc_vs_expat(cx, [px for _, px in xmlitems] + [m[3] for m in meta.values() if m[0] == "rt" and m[1] == "xml"], "rtx")
     cx.sample(lines[1][:300])
